@@ -193,6 +193,48 @@ pub fn c09_worker(args: &Args, w: &Worker) -> i32 {
             }
         }
     }
+    // capture-dense positions: only limit assignments that end the search early; the limits
+    // must also be honoured deep inside quiescence
+    for p in spos::DENSE.iter() {
+        let Ok((board, pos, _)) = searchrun::open(p.fen, &spos::hist(p)) else { continue };
+        let legal = searchrun::legal_uci(&pos);
+        for code in 0..3u32.pow(7) {
+            idx += 1;
+            if !w.mine(idx) || (!thorough && code % 9 != 0) {
+                continue;
+            }
+            let l = assignment(code);
+            if l.nodes.is_none() && !l.has_time() {
+                continue;
+            }
+            let mut cuts: Vec<Cut> = vec![];
+            if l.has_time() {
+                cuts.extend([1u64, 2, 5, 40, 400].iter().map(|k| Cut::ClockAt(*k)));
+            } else {
+                cuts.push(Cut::ClockNever);
+                cuts.push(Cut::StopAt(50));
+            }
+            for cut in cuts {
+                let c = case_for(p, &l, cut);
+                let out = searchrun::run_within(&board, &c, &fresh, ALLOW);
+                w.count("searches", 1);
+                w.count("searches_in_capture_dense_positions", 1);
+                if let Some(why) = judge_go(&out, &legal) {
+                    w.violation(&c.sig(), &format!("'{}' [{}] on {} ({}): {why}", l.go_line(), cut.text(), p.fen, p.name), &c.json());
+                }
+                if out.overran {
+                    overruns.set(overruns.get() + 1);
+                }
+            }
+            if overruns.get() >= 3 {
+                w.count("enumeration_stopped_early_after_3_overruns", 1);
+                break;
+            }
+        }
+        if overruns.get() >= 3 {
+            break;
+        }
+    }
     // larger searches: every stop poll and every clock check as a cut point (fork checkpointing)
     for p in P9.iter().take(if thorough { 12 } else { 4 }) {
         let Ok((_, pos, _)) = searchrun::open(p.fen, &spos::hist(p)) else { continue };
